@@ -64,14 +64,22 @@ def self_field(V, t, byref):
     return None
 
 
+ITER_METHOD_NAMES = set('''next size_hint count last advance_by nth step_by chain zip intersperse intersperse_with map for_each filter filter_map enumerate peekable skip_while take_while
+map_while skip take scan flat_map flatten map_windows fuse inspect by_ref collect try_collect collect_into partition partition_in_place is_partitioned try_fold try_for_each fold reduce
+try_reduce all any find find_map try_find position rposition max min max_by_key max_by min_by_key min_by rev unzip copied cloned cycle array_chunks next_chunk sum product cmp cmp_by
+partial_cmp partial_cmp_by eq eq_by ne lt le gt ge is_sorted is_sorted_by is_sorted_by_key next_back advance_back_by nth_back try_rfold rfold rfind len is_empty into_iter'''.split())
+
+
 def check_no_inherent(inst, ctx, spath, feature):
-    """the iterator struct has no inherent associated functions: in method-call syntax an inherent `len` / `next` / `count` ...
-    would be chosen before the trait method the other rules decide, for every user of the iterator"""
+    """the iterator struct has no inherent associated function named like an iterator method: in method-call syntax an inherent
+    `len` / `next` / `count` ... would be chosen before the trait method the other rules decide, for every user of the iterator"""
     ok = True
     for im in inst.impls:
         if 'trait' in im or inst.crate.T(im['self_ty']).get('path') != spath:
             continue
         for it in im['items']:
+            if it['name'] not in ITER_METHOD_NAMES:
+                continue          # an inherent helper that shadows nothing (C15 decides whether it may be reachable)
             ctx.violation('inherent-shadow', inst, feature, 'the iterator struct %s has an inherent item `%s`: method calls resolve to it before any Iterator / DoubleEndedIterator / ExactSizeIterator method of that name' % (
                 spath.split('::')[-1], it['name']), key='%s/inherent-shadow/%s' % (ctx.prop, feature), construct='src/feature/iter/mod.rs::extend_common / src/feature/names.rs')
             ok = False
